@@ -463,10 +463,31 @@ static void huge_clear_cb(void *obj, void *priv) { (void)obj; (void)priv; huge_c
 
 /* one list of n elements (n up to a little over 2^20): build, sort, reverse, verify by one walk.
  * Size-dependent code paths (a fixed number of merge bins, a counter that wraps) only show here. */
+static int s_accessors_around_push_back(struct cstl_slist *S, void *e, int n0)
+{
+    void *f0, *b0, *f1, *b1;
+    g_inlib = 1;
+    f0 = cstl_slist_front(S); b0 = cstl_slist_back(S);
+    cstl_slist_push_back(S, e);
+    f1 = cstl_slist_front(S); b1 = cstl_slist_back(S);
+    g_inlib = 0;
+    return b1 == e && f1 == (n0 ? f0 : e) && !(n0 && b0 == b1);
+}
+static int d_accessors_around_push_front(struct cstl_dlist *D, void *e, int n0)
+{
+    void *f0, *b0, *f1, *b1;
+    g_inlib = 1;
+    f0 = cstl_dlist_front(D); b0 = cstl_dlist_back(D);
+    cstl_dlist_push_front(D, e);
+    f1 = cstl_dlist_front(D); b1 = cstl_dlist_back(D);
+    g_inlib = 0;
+    return f1 == e && b1 == (n0 ? b0 : e) && !(n0 && f0 == f1);
+}
+
 static void huge_sort(int is_d, uint64_t nsel, uint64_t seed)
 {
-    static const size_t bases[] = { 1u << 12, 1u << 16, 1u << 18, 1u << 20, 1u << 20, (1u << 20) + 3 };
-    size_t n = bases[nsel % 6] + (size_t)((nsel >> 8) % 5) - 2 + ((nsel >> 16 & 1) ? (size_t)((nsel >> 20) % 5000) : 0);
+    static const size_t bases[] = { 1u << 12, 1u << 16, 1u << 18, 1u << 20, 1u << 21, (1u << 20) + 3, 1u << 22, (1u << 21) + 3 };
+    size_t n = bases[nsel % 8] + (size_t)((nsel >> 8) % 5) - 2 + ((nsel >> 16 & 1) ? (size_t)((nsel >> 20) % 5000) : 0);
     struct lelem *pool = malloc(n * sizeof *pool);
     struct mlist dummy; size_t i, cnt; int prev;
     uint64_t x = seed;
@@ -513,7 +534,7 @@ static void huge_sort(int is_d, uint64_t nsel, uint64_t seed)
     if (is_d) TRY(cstl_dlist_clear(&dl[0], huge_clear_cb)); else TRY(cstl_slist_clear(&sl[0], huge_clear_cb));
     if ((size_t)huge_cleared != n) { g_cur_prop = "C15"; VIOL(&dummy, is_d, "clear_count", "clear of %zu elements called back %d times", n, huge_cleared); }
     free(pool);
-    PROBE(n >= (1u << 20) ? "huge_sort_2^20" : "huge_sort");
+    PROBE(n >= (1u << 20) ? "huge_sort_2^20" : "huge_sort"); if (n >= (1u << 21)) PROBE("huge_sort_2^21"); if (n >= (1u << 22)) PROBE("huge_sort_2^22");
     EVT("huge_sort", is_d, n, 0);
     if (n > maxreach) maxreach = (unsigned)n;
 }
@@ -587,7 +608,13 @@ static void l_exec(const plan_t *p)
         case D_PUSH_FRONT:
             if (m->n >= maxlen) goto d_pop_front;
             e = new_elem(key);
-            TRY(cstl_dlist_push_front(D, e)); check_noabort(m, 1);
+            if (o->a[2] & 1) {
+                if (!d_accessors_around_push_front(D, e, m->n))
+                    VIOL(m, 1, "accessor_after_mutation", "front()/back() called right after push_front, in the function that made the call, do not show the new element");
+                PROBE("d_accessors_around_mutation");
+            } else {
+                TRY(cstl_dlist_push_front(D, e)); check_noabort(m, 1);
+            }
             m_insert(m, 0, e); EVT("d_push_front", li, e->id, key);
             break;
         case D_PUSH_BACK:
@@ -781,7 +808,16 @@ static void l_exec(const plan_t *p)
         case S_PUSH_BACK:
             if (m->n >= maxlen) goto s_pop_front;
             e = new_elem(key);
-            TRY(cstl_slist_push_back(S, e)); check_noabort(m, 0);
+            if (o->a[2] & 1) {
+                /* the accessors are called before and after the mutation in one small function of optimised caller code
+                 * (no setjmp in it): what a caller's optimiser may assume about them - attributes in the header - is
+                 * part of the interface */
+                if (!s_accessors_around_push_back(S, e, m->n))
+                    VIOL(m, 0, "accessor_after_mutation", "back()/front() called right after push_back, in the function that made the call, do not show the new element");
+                PROBE("s_accessors_around_mutation");
+            } else {
+                TRY(cstl_slist_push_back(S, e)); check_noabort(m, 0);
+            }
             m_insert(m, m->n, e); EVT("s_push_back", li, e->id, key);
             break;
         case S_POP_FRONT: s_pop_front:
@@ -948,6 +984,8 @@ static void l_gen(prng_t *r, int mode, plan_t *p)
         op_t *o = plan_add(p, mode == 112 ? D_HUGE_SORT : S_HUGE_SORT);
         p->cfg[CF_ND] = 1; p->cfg[CF_NS] = 1; p->cfg[CF_KEYS] = 1; p->cfg[CF_JUNK] = 1 + prng_below(r, 254); p->cfg[CF_MAXLEN] = 8;
         o->a[1] = prng_next(r); o->a[2] = prng_next(r);
+        /* the first eight runs of the batch walk the sizes (2^22 first), the first with descending keys, then random ones */
+        if (g_gen_index < 8) o->a[1] = (o->a[1] & ~(uint64_t)7 & ~((uint64_t)7 << 32)) | ((6 + g_gen_index) % 8) | ((uint64_t)(g_gen_index == 0 ? 1 : 2) << 32);
         return;
     }
 
